@@ -93,6 +93,37 @@ def planted_case(R, gen):
     return q, root
 
 
+def reuse_case(jp, rec, R, text, q, doc):
+    from .. import mon
+    from ..worker import jsonable
+    o = mon.observe(jp.compile, text)
+    if o[0] != "ok":
+        return None
+    c = o[1]
+    steps = []
+    for step in range(3):
+        r = mon.observe(lambda: list(c.finditer(doc)))
+        rec.monitor("M-find")
+        want = mon.want_sig(SD.MODEL.find(q, doc))
+        steps.append(D.short(doc, 300))
+        if r[0] != "ok" or mon.sig(r[1]) != want:
+            return ("reused-compiled-query-differs", {"query": text, "documents_in_order": steps, "step": step, "document": jsonable(doc),
+                                                      "expected_locations": mon.locs_only(want),
+                                                      "observed": mon.locs_only(mon.sig(r[1])) if r[0] == "ok" else mon.describe_outcome(r)})
+        # update in place (same object identity), or switch to an equal-shaped fresh document
+        if isinstance(doc, list) and doc and R.random() < 0.7:
+            i = R.randrange(len(doc))
+            doc[i] = D.deep_copy(R.choice(FALSY + [{"a": 1}, {"a": 2, "b": [1]}, [1, 2]]))
+        elif isinstance(doc, dict) and doc and R.random() < 0.7:
+            k = R.choice(list(doc))
+            doc[k] = D.deep_copy(R.choice(FALSY + [{"a": 1}, 5, "a"]))
+        else:
+            doc = D.deep_copy(doc)
+            if isinstance(doc, list):
+                doc.append(R.choice(FALSY))
+    return None
+
+
 def run_shard(spec, rec):
     import jsonpath_rfc9535 as jp
     R = random.Random(spec["seed"])
@@ -119,6 +150,12 @@ def run_shard(spec, rec):
             except CaseTimeout:
                 rec.timeout(text)
                 continue
+            if key is None and R.random() < 0.2:
+                # the same compiled query applied again after the document was updated in place, and to a second document
+                key = reuse_case(jp, rec, R, text, q, doc)
+                if key:
+                    rec.violation(key[0], key[1])
+                    key = None
             rec.case((q, D.short(doc, 4000)), model.both)
             if model.both:
                 rec.sample({"query": text, "document": D.short(doc), "nodes": len(want)})
